@@ -657,8 +657,10 @@ def eval_grammar(prop: str, rng: random.Random, gname: str, gtext: str, rules_as
             except Timeout:
                 raise
             except Exception as e:  # noqa: BLE001
-                out["direct"].append({**base, "what": f"rewritten grammar does not load: {type(e).__name__}: {str(e)[:100]}",
-                                      "rewritten": new_text, "rewrites": desc, "mode": "interp"})
+                # whether a (printed) grammar text loads is the front end's business (C10/C11) and may as well be
+                # a shortcoming of this harness's printer: counted, never reported as a C08 violation
+                out["stats"]["rewritten_not_loadable"] += 1
+                out["load_errors"].append((gname, type(e).__name__, str(e)[:120], new_text[:300]))
                 continue
             out["stats"]["rewrites"] += 1
             for start, text, k in cases:
